@@ -1,56 +1,82 @@
 (* Engine `verilog`: the document type of structural Verilog (what the harness generator produces and what
    the reader's recursive descent recognises; characters -> vdoc is NOT modelled) and the id-free netlist
-   value compared by C04 / C06 (the Coq counterpart of harness/verilog_world.canon). Types only: the
-   document-level functions elab / emit are not modelled yet; the whole-pipeline statements C04_full and
-   C06_full (Props/C04.v, Props/C06.v) are stated over these types with the document-level reader and
-   writer as parameters. *)
+   value compared by C04 / C06 (the Coq counterpart of harness/verilog_world.canon). Types only.
+   The document-level reader is Fmt/VElab.v (elab : vdoc -> result nv); the document-level writer is not
+   modelled: the whole-pipeline statement C04_full (Props/C04.v) keeps it as a parameter.
+
+   A document is the sequence of module declarations of one source file, each with
+     - the `celldefine flag in force where it stands (such modules are read by parse_primitive),
+     - the "#(parameter k = v, ...)" list and the (* *) attributes in front of the module keyword,
+     - the header entries in order: a plain name, an ANSI entry (direction, range) or an alias ".p(expr)",
+     - the body items in order.
+   Names are the tokens after token.strip() (escaped identifiers keep their backslash, lose the blank). *)
 From Coq Require Import List ZArith Bool.
 From SV Require Import Base.Base.
 Import ListNotations.
 Open Scope Z_scope.
 
 Inductive vdir := DIn | DOut | DInout.
+Inductive vtype := TWire | TReg | TTri0 | TTri1.
+Definition attr := (str * option str)%type.             (* (* key = value *) or (* key *) *)
 
-Inductive dexpr :=
-| DId (n : str) | DBit (n : str) (i : Z) | DPart (n : str) (h l : Z) | DConst (b : bool)
-| DCat (l : list dexpr).
+(* what parse_variable_instantiation accepts: id | id[i] | id[h:l] | 1'b0 / 1'b1 *)
+Inductive datom := DId (n : str) | DBit (n : str) (i : Z) | DPart (n : str) (h l : Z) | DConst (b : bool).
+(* what a port connection / alias accepts: one of those or a flat concatenation {a, b, ...} *)
+Inductive dexpr := DAtom (a : datom) | DCat (l : list datom).
 
-Record vport := { vp_name : str; vp_dir : vdir; vp_width : option Z (* None = scalar, Some w = [w-1:0] *) }.
+Inductive vhport :=
+| HPort (dir : option vdir) (range : option (Z * Z)) (name : str)   (* "a" | "input [3:0] a" | "[3:0] a" *)
+| HAlias (name : str) (e : dexpr).                                    (* ".a({x, y})" *)
+
+Inductive vconns :=
+| CNamed (l : list (str * option dexpr))                             (* .p(expr) / .p() *)
+| CPos (l : list (option dexpr)).                                     (* expr, expr, ...; None = empty slot *)
 
 Inductive vitem :=
-| IWire (names : list str) (range : option (Z * Z)) (is_reg : bool) (attrs : list (str * option str))
-| IInst (modname inst : str) (params : list (str * str)) (attrs : list (str * option str))
-        (named : bool) (conns : list (option str * option dexpr))
-| IAssign (lhs rhs : dexpr).
+| IPortDecl (dir : vdir) (ty : option vtype) (range : option (Z * Z)) (names : list str) (attrs : list attr)
+| IWire (ty : vtype) (range : option (Z * Z)) (names : list str) (attrs : list attr)
+| IInst (modname inst : str) (params : list (str * str)) (attrs : list attr) (conns : vconns)
+| IDefparam (inst key value : str)
+| IAssign (lhs rhs : datom)
+| IOther.   (* any other statement: skipped token by token inside `celldefine, rejected elsewhere *)
 
 Record vmodule := {
-  vm_name : str; vm_cell : bool (* inside `celldefine *); vm_ansi : bool;
-  vm_params : list (str * str); vm_attrs : list (str * option str);
-  vm_ports : list vport; vm_body : list vitem }.
+  vm_name : str; vm_cell : bool (* inside `celldefine *);
+  vm_params : list (str * str); vm_attrs : list attr;
+  vm_header : list vhport; vm_body : list vitem }.
 
 Definition vdoc := list vmodule.
 
-(* netlist value *)
+(* ---------- netlist value ---------- *)
 Definition bitref := (str * Z)%type.                      (* cable name, Verilog index *)
-Inductive endpoint := EPort (p : str) (bit : Z) | EInst (inst : str) (p : option str) (pos : nat) (bit : Z).
+Inductive plabel := LName (n : str) | LPos (pos : nat).   (* a port is named, or known by its position *)
+Inductive endpoint := EPort (p : plabel) (bit : Z) | EInst (inst : str) (p : plabel) (bit : Z).
 
-Record nv_port := { np_name : option str; np_dir : option vdir; np_width : nat; np_lower : Z }.
-Record nv_inst := { ni_name : str; ni_ref : str; ni_params : list (str * str); ni_attrs : list (str * option str) }.
+Record nv_port := { np_label : plabel; np_dir : option vdir (* None = undefined *); np_width : nat; np_lower : Z }.
+Record nv_cable := { nc_name : str; nc_width : nat; nc_lower : Z; nc_type : vtype; nc_attrs : list attr }.
+Record nv_inst := { ni_name : str; ni_ref : str; ni_params : list (str * str); ni_attrs : list attr }.
 Record nv_def := {
-  nd_name : str; nd_lib : str; nd_ports : list nv_port (* ordered *);
-  nd_cables : list (str * nat * Z);                       (* name, width, lower index *)
+  nd_name : str; nd_lib : str; nd_prim : bool (* VERILOG.primitive: inferred from its uses only *);
+  nd_params : list (str * str); nd_attrs : list attr;
+  nd_ports : list nv_port (* ordered *);
+  nd_cables : list nv_cable;
   nd_insts : list nv_inst;
   nd_nets : list (bitref * list endpoint);                (* connectivity: net bit -> what it joins *)
-  nd_assigns : list (list (bitref * bitref)) }.           (* per assign: pin k -> (lhs bit, rhs bit) *)
+  nd_assigns : list (list (option bitref * option bitref)) }.  (* per assign: pin k -> (lhs bit, rhs bit) *)
 Record nv := { nv_top : option str; nv_defs : list nv_def }.
 
 Definition same_set {A} (a b : list A) : Prop := forall x, In x a <-> In x b.
 
+(* endpoints joined to net bit r *)
+Definition net_of (r : bitref) (d : nv_def) : list endpoint :=
+  flat_map (fun ne => if andb (str_eqb (fst (fst ne)) (fst r)) (Z.eqb (snd (fst ne)) (snd r)) then snd ne else []) (nd_nets d).
+
 Definition same_def (a b : nv_def) : Prop :=
-  nd_name a = nd_name b /\ nd_lib a = nd_lib b /\ nd_ports a = nd_ports b /\
+  nd_name a = nd_name b /\ nd_lib a = nd_lib b /\ nd_prim a = nd_prim b /\
+  same_set (nd_params a) (nd_params b) /\ same_set (nd_attrs a) (nd_attrs b) /\
+  nd_ports a = nd_ports b /\
   same_set (nd_cables a) (nd_cables b) /\ same_set (nd_insts a) (nd_insts b) /\
-  (forall r, same_set (flat_map (fun ne => if andb (str_eqb (fst (fst ne)) (fst r)) (Z.eqb (snd (fst ne)) (snd r)) then snd ne else []) (nd_nets a))
-                      (flat_map (fun ne => if andb (str_eqb (fst (fst ne)) (fst r)) (Z.eqb (snd (fst ne)) (snd r)) then snd ne else []) (nd_nets b))) /\
+  (forall r, same_set (net_of r a) (net_of r b)) /\
   (exists p, Permutation.Permutation p (nd_assigns b) /\ nd_assigns a = p).
 
 Definition same_netlist (a b : nv) : Prop :=
